@@ -155,7 +155,20 @@ def run(ctx):
 
     def harness(stream):
         name, pkg, hfile, test = stream
-        binp = ctx.go_test_build(pkg, [hfile], name, pkgname=os.path.basename(pkg))
+        extra = None
+        if pkg == "control":
+            # the optimizer expressions of NewControlPlane's NewNormalizedProgram call, regenerated from
+            # control_plane.go as Go code and compiled into the harness: the traffic stream EXECUTES them
+            extra, mode = ctx.optchain_overlay()
+            binp = ctx.go_test_build(pkg, [hfile], name, pkgname=os.path.basename(pkg), extra_overlay=extra)
+            if not binp and not mode.startswith("FALLBACK"):
+                extra, mode = ctx.optchain_overlay(fallback=True)
+                binp = ctx.go_test_build(pkg, [hfile], name, pkgname=os.path.basename(pkg), extra_overlay=extra)
+            ctx.cov["production_optimizer_chain"] = mode
+            if mode.startswith("FALLBACK"):
+                ctx.proof_failures.append("the traffic call site could not be regenerated as code: " + mode)
+        else:
+            binp = ctx.go_test_build(pkg, [hfile], name, pkgname=os.path.basename(pkg))
         if not binp:
             return None
         return ctx.run_harness(binp, test)
@@ -199,10 +212,22 @@ def run(ctx):
     # generator-quality floors: the random streams must keep producing inputs on which the known wrong
     # variants of the optimizers would decide differently (measured quick seed 1: 267 / 27 / 87 / 1747)
     floors = {"sens_negated_merge": 50, "sens_value_only_dedup": 5, "sens_outbound_by_name": 15, "decided_by_merged_rule": 300}
-    if not ctx.violations:
+    dfl = {"c04:traffic.rules_through_real_config.New": 600, "c04:dnsreq.matcher_from_real_dns.New": 250,
+           "c04:dnsresp.matcher_from_real_dns.New": 250, "c04sel:programs_built_by_real_NewWithOption": 120,
+           "c04:sharedcache.checks": 100, "c04:lpm.constructed_hash_collisions": 3, "c04:gen.must_shorthand_outbounds": 100,
+           "c04sel:nodeall.decision.subnode_rule": 20, "c04sel:nodeall.decision.node_rule_after_subnode_miss": 20}
+    floor_fail = []
+    if not ctx.violations and not ctx.proof_failures:
         for k, v in floors.items():
             if agg[k] < v:
-                ctx.proof_failures.append(f"generator sensitivity {k}={agg[k]} fell below its floor {v}")
+                floor_fail.append(f"{k}={agg[k]} < {v}")
+        for k, v in dfl.items():
+            if dist.get(k, 0) < v:
+                floor_fail.append(f"{k}={dist.get(k, 0)} < {v}")
+    if floor_fail:
+        ctx.say("GENERATOR-FLOOR not reached (the run proves nothing about those input classes): " + "; ".join(floor_fail))
+        ctx.finish(rule="floors not reached", evaluations=agg["evaluations"], distinct=len(agg["distinct"]))
+        return 2
     if agg["benign_ast_drift"]:
         ctx.say(f"NOTE: {agg['benign_ast_drift']} normalised programs differ from the model's AST but have the same normal form (same meaning by theorem); not a violation")
     ctx.assumptions = [
